@@ -491,7 +491,8 @@ def d5_defaults(ctx):
     ca = ctx.repo.func('utils.check_accessmode')
     d = ca.param_defaults().get('validmodes')
     try:
-        val = ast.literal_eval(d)
+        from ..pathcond import inline as _inl
+        val = ast.literal_eval(_inl(ca, d))
     except Exception:
         val = None
     ctx.decide(val is not None and set(val) == {'r', 'r+'}, 'R-TABLE', 'D5', ca, d, 'validmodes',
